@@ -38,7 +38,7 @@ pub struct C20Case {
     pub queries: Vec<Q>,
 }
 
-pub const FAMILIES: &[(&str, u64)] = &[("tiny-hints", 3), ("lazy-hints", 3), ("medium-hints", 2), ("hostile", 2), ("tiny", 1)];
+pub const FAMILIES: &[(&str, u64)] = &[("tiny-hints", 3), ("lazy-hints", 3), ("medium-hints", 2), ("hostile", 2), ("tiny", 1), ("many-hints", 1)];
 
 /// Called from inside `Prov::sort_candidates` when `reentrant_sort` is set: query the cache that
 /// is in the middle of computing a sorted list, and judge the answers by the reference.
